@@ -195,7 +195,9 @@ def css_name(k):
 CSS_KEYS = ["color", "font_size", "fontSize", "backgroundColor", "background_color", "MozBoxSizing", "WebkitTransition", "x", "A",
             "aB_cD", "a__b", "border_top_leftRadius", "zIndex", "margin_", "_webkit_x", "line_height", "é_x",
             # custom properties and vendor prefixes (only reachable with **): converted like every other name
-            "--mainBg", "--brand_color", "--x", "-webkit-Box_x", "__x", "--", "a-B", "--Ü_x"]
+            "--mainBg", "--brand_color", "--x", "-webkit-Box_x", "__x", "--", "a-B", "--Ü_x",
+            # names that look like vendor prefixes in DOM spelling: no prefix rule, just the conversion
+            "msTransition", "ms_flex_align", "ms-x", "webkitBoxShadow", "mozAppearance", "oTransition", "khtmlUserSelect", "ms", "msx", "MsFoo", "cssFloat", "float_"]
 CSS_VALS = ["red", "12px", 0, 3, 1.5, -2, None, None, "", "a b", "url(x;y)", "10%", 1e21, "red;", "0 ;", "';", "1px;;", " lead", "trail ", "a:b", "x\ny", True, False]
 
 
